@@ -128,6 +128,13 @@ def cases(tier, seed):
     for form in ("two-blocks", "single-block", "single-block-mask", "two-blocks-fd"):
         for pert in ("jc", "rabi", "jc+z"):
             out.append(dict(kind="matrix", form=form, pert=pert, order=2 if qk else 3))
+    # symbolic-power matrix mask [[0, a†**k], [a**k, 0]], k >= 0: also selects the number-conserving (k = 0) terms
+    for pert in ("jc", "rabi", "jc+z", "rabi-c"):
+        out.append(dict(kind="matrix", form="single-block-mask-k", pert=pert, order=2 if qk else 3))
+    out.append(dict(kind="matrix", form="single-block-mask", pert="rabi-c", order=2))
+    # two blocks whose H_0 contain different operator sets (first block: fermion only; second: boson and fermion)
+    for pert in ("mixed-ops", "mixed-ops-spin"):
+        out.append(dict(kind="matrix", form="two-blocks", pert=pert, order=2, degenerate=True))
     # four internal levels in two blocks of two (operator-valued 2x2 blocks)
     for variant in ("plain", "fd0", "single"):
         out.append(dict(kind="matrix4", variant=variant, order=2))
@@ -349,9 +356,18 @@ def run_matrix(case):
         H1 = sympy.Matrix([[a + Dagger(a), a + 2 * Dagger(a)], [Dagger(a) + 2 * a, 0]])
     elif case["pert"] == "asym2":
         H1 = sympy.Matrix([[0, a**2 + 3 * Dagger(a)], [Dagger(a) ** 2 + 3 * a, a + Dagger(a)]])
+    elif case["pert"] == "rabi-c":  # number-changing and number-conserving parts in the off-diagonal element
+        H1 = sympy.Matrix([[0, a + Dagger(a) + R(3, 10)], [a + Dagger(a) + R(3, 10), 0]])
+    elif case["pert"] in ("mixed-ops", "mixed-ops-spin"):
+        f = o["c"] if case["pert"] == "mixed-ops" else o["s"]
+        Nf = NumberOperator(f)
+        H0 = sympy.Matrix([[R(9, 4) * Nf + R(4, 5), 0], [0, R(9, 4) * Nf + N + N**2 / 9]])
+        H1 = sympy.Matrix([[0, a + 2 * Dagger(a) + Nf], [Dagger(a) + 2 * a + Nf, (a + Dagger(a)) * (1 + Nf)]])
     else:
         H1 = sympy.Matrix([[a + Dagger(a), a], [Dagger(a), -(a + Dagger(a))]])
     modes = [a]
+    if case["pert"] in ("mixed-ops", "mixed-ops-spin"):
+        modes = [a, f]
     D, margin = fock_D(modes, order, 1)
     sp = Space(modes, D=D)
     n = sp.dim
@@ -385,6 +401,17 @@ def run_matrix(case):
                         if abs(sp.states[m][0] - sp.states[k][0]) == 1:
                             mask[r * n + m, c * n + k] = True
         nkwargs["fully_diagonalize"] = {0: mask}
+    elif form == "single-block-mask-k":
+        kk = sympy.Symbol("k", integer=True, nonnegative=True)
+        mexpr = sympy.Matrix([[sympy.S.Zero, Dagger(a) ** kk], [a**kk, sympy.S.Zero]])
+        kwargs["fully_diagonalize"] = mexpr
+        mask = np.zeros((2 * n, 2 * n), dtype=bool)
+        for m in range(n):
+            for k in range(n):
+                if sp.states[m][0] >= sp.states[k][0]:  # <m| a†^j |k> with j = m - k >= 0 in element (0, 1)
+                    mask[m, n + k] = True
+                    mask[n + k, m] = True
+        nkwargs["fully_diagonalize"] = {0: mask}
     outs = block_diagonalize([H0, H1], **kwargs)
     nouts = block_diagonalize([np.diag(levels), h1m], **nkwargs)
     orders = list(range(order + 1))
@@ -415,7 +442,7 @@ def run_matrix(case):
 
     lib = {nm: {k: assemble_lib(s, k) for k in orders} for nm, s in zip(("H_tilde", "U", "U_adj"), outs)}
     num = {nm: {k: assemble_num(s, k) for k in orders} for nm, s in zip(("H_tilde", "U", "U_adj"), nouts)}
-    interior = sp.interior([margin], [margin])
+    interior = sp.interior([margin] * len(modes), [margin] * len(modes))
     V = []
     label = f"matrix-valued {form} {case['pert']}"
     nt = compare_series(sp, lib, num, orders, interior, V, label, matdim=2)
